@@ -11,7 +11,17 @@ while true; do
     grep -q "^$P $K " /tmp/vs/results.txt && continue
     # wait until the seed agent is finished with this seed (notes file written)
     [ -f "/tmp/seed_out/$P/notes$K.md" ] || continue
-    out=$(/verif/tools/verify_seed.sh $P $K test --ignore=test/aaa_profiling/test_memusage.py 2>&1); rc=$?
+    # test selection by touched area (the whole suite takes >25 min on a loaded machine): see DESIGN.md 10.3
+    T=""
+    grep -q "^+++ b/lib/sqlalchemy/\(sql\|dialects\)/" $f && T="$T test/sql test/dialect test/base"
+    grep -q "^+++ b/lib/sqlalchemy/\(engine\|pool\)/" $f && T="$T test/engine test/base test/dialect test/ext/asyncio"
+    grep -q "^+++ b/lib/sqlalchemy/orm/" $f && T="$T test/orm test/ext"
+    grep -q "^+++ b/lib/sqlalchemy/ext/" $f && T="$T test/ext test/orm/test_session.py test/orm/test_unitofworkv2.py"
+    grep -q "^+++ b/lib/sqlalchemy/\(util\|event\)/" $f && T="$T test/base test/engine test/sql test/orm/test_session.py test/orm/test_unitofworkv2.py"
+    [ -z "$T" ] && T="test --ignore=test/aaa_profiling/test_memusage.py"
+    T=$(echo $T | tr ' ' '\n' | awk '!s[$0]++' | tr '\n' ' ')
+    out=$(/verif/tools/verify_seed.sh $P $K $T 2>&1); rc=$?
+    out="[tests: $T] $out"
     echo "$P $K rc=$rc | $(echo "$out" | tr '\n' ' ' | cut -c1-600)" >> /tmp/vs/results.txt
     did=1
   done
